@@ -905,7 +905,7 @@ def inline_methods_by_name(index: RepoIndex, expr: ast.AST, depth: int = 3,
                     len(instances.get(c.func.value.id, [])) == 1:
                 # the receiver is a module-level instance: its class is known, so the method
                 # need not have a package-unique name
-                known = instances[c.func.value.id][0].methods.get(c.func.attr)
+                known = index.method(instances[c.func.value.id][0], c.func.attr)
                 if known is not None and new_only:
                     from .pinned_names import PARAMS as _PP
                     if f'{known.module.relpath}:{known.short}' in _PP:
@@ -939,6 +939,13 @@ def inline_methods_by_name(index: RepoIndex, expr: ast.AST, depth: int = 3,
                     any(k.arg is None for k in c.keywords):
                 return c
             e = pure_body_expr(fn)
+            if e is None:
+                # a one-pass loop that fills the lists it returns is the comprehensions it
+                # builds (normal form)
+                from .normalise import normalise_function
+                nf = normalise_function(fn)
+                if nf is not fn:
+                    e = pure_body_expr(nf)
             if e is None:
                 return c
             params = [a.arg for a in fn.args.posonlyargs + fn.args.args]
